@@ -39,7 +39,14 @@ def programs(ctx, want_cancel):
     for i, p in enumerate(core.sample(ctx.rng, bidi, 360 if quick else 6000)):
         out.append(dict(p, kind="bidi", http=2, proto=["connect", "grpc", "grpcweb"][i % 3]))
     floods = [p for p in kinds if p["h"].get("hflood")]
-    kinds = [p for p in kinds if not p["h"].get("hflood")]
+    unary = [p for p in kinds if p["kind"] == "unary"]
+    kinds = [p for p in kinds if not p["h"].get("hflood") and p["kind"] != "unary"]
+    # unary calls (few programs: CallUnary with the context ending before or during it): all of them, both HTTP versions
+    for i, p in enumerate(unary):
+        for proto, http in (("connect", 1), ("connect", 2), ("grpc", 2), ("grpcweb", 1), ("grpcweb", 2)):
+            if p["h"]["hret"] == "stall" and http == 1:
+                continue
+            out.append(dict(p, http=http, proto=proto))
     # handlers that send until the client goes away: a seeded handful, over both HTTP versions
     for i, p in enumerate(core.sample(ctx.rng, floods, 18 if quick else len(floods))):
         proto = ["connect", "grpc", "grpcweb"][i % 3]
